@@ -65,6 +65,14 @@ func init() {
 			name := in.freshName(concStrArg(a[0]))
 			return in.symBytes(name, int(a[1].N)), true
 		},
+		// AlterKeyY: an uncompressed public key whose Y coordinate is replaced by another value of the same parity
+		"AlterKeyY": func(in *Interp, fr *Frame, a []Value) (Value, bool) {
+			t, ok := opaqueOfBytes(a[0])
+			if !ok || t.Ctor != "pubuncomp" {
+				unsupported("AlterKeyY of something that is not an uncompressed public key")
+			}
+			return opqBytes(ot("pubuncompT", t.Args[0], 1)), true
+		},
 		"Cid": func(in *Interp, fr *Frame, a []Value) (Value, bool) {
 			return cidOf(in.newAtom("cid", fmt.Sprintf("c%d", a[0].N))), true
 		},
